@@ -3,6 +3,8 @@
 package stateless
 
 import (
+	"context"
+
 	cmttypes "github.com/cometbft/cometbft/types"
 
 	"github.com/oasisprotocol/oasis-core/go/common/crypto/hash"
@@ -57,4 +59,10 @@ func VerifStateRootFromBlockTxs(txs [][]byte) (hash.Hash, error) {
 // VerifStateRootFromMetaTx extracts the state root from a block metadata transaction.
 func VerifStateRootFromMetaTx(metaTx []byte) (hash.Hash, error) {
 	return stateRootFromMetaTx(metaTx)
+}
+
+// VerifVerifyParameters verifies a provider's consensus parameters against a light block with the
+// given core (Core.verifyParameters; the core needs its consensus querier set, see SetQueriers).
+func VerifVerifyParameters(ctx context.Context, c *Core, params *consensusAPI.Parameters, lb *cmttypes.LightBlock) error {
+	return c.verifyParameters(ctx, params, lb)
 }
